@@ -1294,6 +1294,128 @@ theorem euler_stock_succ (hG : X.GridOK) (hA : X.Acyclic) (hR : X.RunsGraph) {n 
     simp only [hd, Option.some.injEq] at hw'
     exact ⟨s, d, hs, rfl, by rw [hw, ← hw']⟩
 
+/-! ### Wave 2 (3): non-negative stocks, flows defined by a graphical function
+
+`.gflow` is an ordinary element of the model, so `xmile_run_eq_euler`, `C04_full_of_good`,
+`dsl_xmile_agree`, … cover it (case `gflow` of `elem_ok`, `compileDsl_toDsl`).  A non-negative stock is
+`xStock true`: the transpiler clamps the INITIAL VALUE only. -/
+
+section wave2_3
+open Bptk.Py
+
+theorem WLbArg_of_WLb (a : Py) (h : WLb 0 a = true) : WLbArg 0 a = true := by
+  cases a <;> simp_all [WLb, WLbArg]
+
+theorem nnPy_wl (e : Py) (h : WLb 0 e = true) : WLb 0 (nnPy e) = true := by
+  simp [nnPy, WLb, WLbArgs, WLbArg, WLbL, h, lvlH_name]
+
+theorem lerpPyP_wl (name : String) (a : Py) (h : WLb 0 a = true) : WLb 0 (lerpPyP name a) = true := by
+  simp [lerpPyP, WLb, WLbArgs, WLbArg, WLbArg_of_WLb a h, selfAttr, lvlH_name, lvlH_attr]
+
+theorem gflowPyP_wl (nn : Bool) (name : String) (a : Py) (h : WLb 0 a = true) : WLb 0 (gflowPyP nn name a) = true := by
+  cases nn
+  · simpa [gflowPyP] using lerpPyP_wl name a h
+  · simpa [gflowPyP] using nnPy_wl _ (lerpPyP_wl name a h)
+
+theorem tmOfPy_nnPy (ix : String → Option Nat) (e : Py) (x : Tm String) (h : tmOfPy ix (erase e) = some x) :
+    tmOfPy ix (erase (nnPy e)) = some (.mx (.int 0) x) := by
+  simp [nnPy, erase, eraseL, tmOfPy, h]
+
+theorem tmOfPy_lerpPyP (ix : String → Option Nat) (name : String) (a : Py) (x : Tm String)
+    (h : tmOfPy ix (erase a) = some x) : tmOfPy ix (erase (lerpPyP name a)) = some (.lerp x []) := by
+  simp [lerpPyP, erase, eraseL, selfAttr, tmOfPy, h]
+
+/-- a flow defined by a graphical function: the emitted text parses to the intended tree and denotes the
+model's code (`compileElem` of `.gflow`), for any argument text -/
+theorem gflow_text_denotes (nn : Bool) (n : Nat) (a : Py) (hw : WLb 0 a = true) (e : Ex String)
+    (pts : List (String × String)) (ha : tmOfPy nameIx (erase a) = some ((cEx .cur e).shape id)) :
+    Parses (pr (gflowPyP nn (nmG n) a)) (gflowPyP nn (nmG n) a) ∧
+    tmOfPy nameIx (erase (gflowPyP nn (nmG n) a)) = some ((compileElem n (.gflow nn e pts)).shape id) := by
+  refine ⟨parse_print _ (gflowPyP_wl nn _ a hw), ?_⟩
+  cases nn
+  · simpa [gflowPyP, compileElem, Tm.shape] using tmOfPy_lerpPyP nameIx (nmG n) a _ ha
+  · simpa [gflowPyP, compileElem, Tm.shape] using tmOfPy_nnPy nameIx _ _ (tmOfPy_lerpPyP nameIx (nmG n) a _ ha)
+
+/-- a NON-NEGATIVE stock, any numbers of in/outflows: the text is the ordinary skeleton around
+`max([0 , init])`; it parses to it and denotes `compileElem` of `xStock true …` -/
+theorem nnstock_text_denotes (s : Nat) (init : Py) (hw : WLb 0 init = true) (it : Tm String)
+    (hinit : tmOfPy nameIx (erase init) = some it) (ins outs : List Nat) :
+    Parses (pr (skelPyP (nmG s) (nnPy init) (ins.map nmG) (outs.map nmG))) (skelPyP (nmG s) (nnPy init) (ins.map nmG) (outs.map nmG)) ∧
+    tmOfPy nameIx (erase (skelPyP (nmG s) (nnPy init) (ins.map nmG) (outs.map nmG))) = some (stockTm s (.mx (.int 0) it) ins outs) :=
+  let h := stock_text_denotes s (nnPy init) (nnPy_wl init hw) (.mx (.int 0) it) (tmOfPy_nnPy nameIx init it hinit) ins outs
+  ⟨h.1, h.2.1⟩
+
+theorem compile_xStock (n : Nat) (nn : Bool) (init : Ex α) (ins outs : List Nat) :
+    compileElem n (xStock nn init ins outs) =
+      stockTm n (if nn then .mx (.int 0) (cEx .cur init) else cEx .cur init) ins outs := by
+  cases nn <;> simp [xStock, nnWrap, compileElem, cEx]
+
+theorem evalEx_nnWrap (C : Carrier α) (dtv tnow : α) (look : Nat → Option α) (e : Ex α) :
+    evalEx C dtv tnow look (nnWrap true e) = (evalEx C dtv tnow look e).map (pyMax C (C.int 0)) := by
+  simp only [nnWrap, if_true, evalEx]
+  cases evalEx C dtv tnow look e <;> rfl
+
+/-- non-negative stock at the start: the Euler value is `max(0, initial value)` … -/
+theorem euler_nnstock_zero (C : Carrier α) (M : Model α) (tv : Nat → α) (f n : Nat) (init : Ex α) (ins outs : List Nat)
+    (hel : M.elems[n]? = some (xStock true init ins outs)) :
+    eulerF C M tv (f + 1) n 0 =
+      (evalEx C M.dtv (tv 0) (fun m => eulerF C M tv f m 0) init).map (pyMax C (C.int 0)) := by
+  simp only [xStock] at hel
+  simp only [eulerF, hel, evalEx_nnWrap]
+
+/-- … and every later value is the plain Euler step: NOT clamped (instance of `euler_stock_succ`) -/
+theorem euler_nnstock_succ (hG : X.GridOK) (hA : X.Acyclic) (hR : X.RunsGraph) {n k : Nat} {init : Ex α}
+    {ins outs : List Nat} (hel : X.M.elems[n]? = some (xStock true init ins outs)) (hk : k + 1 ≤ X.N) :
+    ∃ s d, euler X.C X.M X.tv n k = some s ∧
+      net X.C (fun m => euler X.C X.M X.tv m k) ins outs = some d ∧
+      euler X.C X.M X.tv n (k + 1) = some (X.C.bin .add s (X.C.bin .mul X.M.dtv d)) :=
+  euler_stock_succ hG hA hR (init := nnWrap true init) hel hk
+
+/-- value of a flow defined by a graphical function: clamp ∘ LERP ∘ equation -/
+theorem euler_gflow (C : Carrier α) (M : Model α) (tv : Nat → α) (f n k : Nat) (nn : Bool) (e : Ex α) (pts : List (α × α))
+    (hel : M.elems[n]? = some (.gflow nn e pts)) :
+    eulerF C M tv (f + 1) n k =
+      ((evalEx C M.dtv (tv k) (fun m => eulerF C M tv f m k) e).bind (lerp C pts)).map
+        (fun v => if nn then pyMax C (C.int 0) v else v) := by
+  simp only [eulerF, hel]
+  cases evalEx C M.dtv (tv k) (fun m => eulerF C M tv f m k) e with
+  | none => rfl
+  | some x => cases h : lerp C pts x <;> simp [h]
+
+/-- what the code does with a "non-negative" stock, on the integers: initial value -2 is raised to 0, but
+with an outflow of 3 per step the stock is 0, -3, -6: the integration is not clamped -/
+def nnM : Model Int := { elems := [xStock true (.int (-2)) [] [1], .flow true (.int 3)], dtv := 1 }
+
+example : euler intCarrier nnM (fun _ => 0) 0 0 = some 0 := by decide +kernel
+example : euler intCarrier nnM (fun _ => 0) 0 2 = some (-6) := by decide +kernel
+example : runVal intCarrier (natTS (fun _ => (0 : Int))) 1 (compile nnM) 40 [] 0 2 = some (-6) := by decide +kernel
+
+/-- gf flows in a feedback graph (non-vacuity): uniflow and biflow defined by tables, a non-negative stock -/
+def gfM : Model Int :=
+  { elems := [ xStock true (.int 4) [1] [2],
+               .gflow true (.bin .sub (.ref 0) (.int 2)) [(0, -5), (5, 3), (10, 8)],
+               .gflow false .time [(0, -1), (2, 3), (5, 8)] ],
+    dtv := 1 }
+
+example : euler intCarrier gfM (fun k => (k : Int)) 0 3 = runVal intCarrier (natTS (fun k => (k : Int))) 1 (compile gfM) 100 [] 0 3 := by
+  decide +kernel
+example : (euler intCarrier gfM (fun k => (k : Int)) 0 3).isSome = true := by decide +kernel
+
+
+/-- the driver's probe of non-negative stock skeletons (any numbers of flows) is sound -/
+theorem skeletonTextNNOK_sound (nin nout : Nat) (toks : List Tok) (h : skeletonTextNNOK nin nout toks = true) :
+    Parses toks (skelPyP (nmG 0) (nnPy (.num "7.5")) ((flowIxs 1 nin).map nmG) ((flowIxs (1 + nin) nout).map nmG)) ∧
+    ∀ p, parse toks = some p →
+      tmOfPy nameIx (erase p) = some (stockTm 0 (.mx (.int 0) (.lit "7.5")) (flowIxs 1 nin) (flowIxs (1 + nin) nout)) := by
+  simp only [skeletonTextNNOK, decide_eq_true_eq] at h
+  subst h
+  have h := nnstock_text_denotes 0 (.num "7.5") (by decide) (.lit "7.5") (by decide) (flowIxs 1 nin) (flowIxs (1 + nin) nout)
+  refine ⟨h.1, ?_⟩
+  intro p hp
+  rw [parses_unique _ _ _ (parse_sound _ _ hp) h.1]
+  exact h.2
+end wave2_3
+
 /-! ### Non-vacuity -/
 
 /-- a two-stock feedback graph with a stock-to-stock uniflow, a biflow, an auxiliary using TIME and a
@@ -1336,6 +1458,13 @@ example : runVal intCarrier (natTS (fun _ => (0 : Int))) 1 (compile wM) 40 [] 0 
 #print axioms stock_text_denotes
 #print axioms skeletonTextOK_sound
 #print axioms joined_flat
+#print axioms gflow_text_denotes
+#print axioms nnstock_text_denotes
+#print axioms skeletonTextNNOK_sound
+#print axioms euler_nnstock_zero
+#print axioms euler_nnstock_succ
+#print axioms euler_gflow
+#print axioms compileDsl_toDsl
 #print axioms lerp_interior
 #print axioms euler_stock_succ
 #print axioms normalize_keys_on_grid
